@@ -22,35 +22,55 @@ const (
 	vConst
 	vBool
 	vFunc
-	vInt // an int parameter: may not be used
-	vErr // the error result of an abstract partial call
+	vInt     // an int parameter: may not be used
+	vErr     // the error result of an abstract partial call
+	vIntVar  // a Go int variable (Lean Int)
+	vSlice   // a Go []float64 (Lean List α)
+	vIdxVec  // an index vector `[]int{e}`: a Lean Int holding its element 0
+	vList    // whole-function mode: a series as a list (Lean List α)
+	vClosure // a function literal bound to a local name (lambda-lifted to a definition of the namespace)
+	vIntTab  // a package-level array of int constants
+	vErrFlag // the error result of a configuration check, as a Bool (true = non-nil)
 )
 
 const (
 	mKernel = iota
 	mHelper
+	mWhole // the whole function, series as lists (no time loop of the standard shape)
 )
 
 type variable struct {
-	kind    vkind
-	name    string // Go name
-	lean    string
-	c       *cval
-	lit     string // a local constant defined by one plain decimal literal: its spelling
-	depth   int    // scope depth of the declaration
-	inLoop  bool   // declared inside the loop body
-	state   bool
-	hidden  bool // loop-carried, not returned
-	param   bool
-	isOut   bool // the per-step value of an output series
-	isNil   bool // a series parameter that is nil at this call site
-	declPos token.Pos
-	fn      *funcRef // vFunc: the function bound to this function-valued parameter
+	kind         vkind
+	name         string // Go name
+	lean         string
+	c            *cval
+	lit          string // a local constant defined by one plain decimal literal: its spelling
+	depth        int    // scope depth of the declaration
+	inLoop       bool   // declared inside the loop body
+	state        bool
+	hidden       bool // loop-carried, not returned
+	param        bool
+	isOut        bool // the per-step value of an output series
+	isNil        bool // a series parameter that is nil at this call site
+	declPos      token.Pos
+	fn           *funcRef // vFunc: the function bound to this function-valued parameter
+	used         bool     // referenced by a translated expression
+	everAssigned bool
+	written      bool // vList: Set / CopyFrom is called on it
+	reassigned   bool // a parameter assigned before the loop: from then on a pre-loop local
+	clo          *closureDef
+	fdepth       int  // nesting depth of function literals at the declaration
+	capturedAt   bool // captured by a function literal: may not be assigned afterwards
 }
 
 func (v *variable) typ() string {
-	if v.kind == vBool {
+	switch v.kind {
+	case vBool, vErrFlag:
 		return "Bool"
+	case vIntVar, vIdxVec, vInt, vLoop:
+		return "Int"
+	case vSlice, vList:
+		return "List α"
 	}
 	return "α"
 }
@@ -77,7 +97,12 @@ type frame struct { // a φ-merge in progress: which outer variables the branche
 type helperDef struct {
 	key, lean, text string
 	nin, nout       int
-	abstract        string // non-empty: not translated (reason); an argument of guard/pre/init/step
+	ins, outs       []string      // Lean types of the parameters and results
+	drop            []bool        // int parameters the body does not use (not parameters of the definition)
+	partial         bool          // may panic: the result is an Option
+	absFns          []*abstractFn // functions that are not translated, reached from the body: leading parameters
+	abstract        string        // non-empty: not translated (reason); an argument of guard/pre/init/step
+	typ             string        // abstract: the Lean type when it is not all-float64
 	rel             string
 	line            int
 }
@@ -94,13 +119,14 @@ func newHelperSet() *helperSet {
 }
 
 var reservedDefs = map[string]bool{"guard": true, "pre": true, "init": true, "step": true, "delegate": true, "delegates": true,
-	"delegateInit": true, "delegateStep": true, "delegateFinal": true, "abstractBranch": true, "translated": true}
+	"delegateInit": true, "delegateStep": true, "delegateFinal": true, "abstractBranch": true, "translated": true, "final": true, "run": true}
 
 type needHidden struct{ pos token.Pos }
 
 type guardRec struct {
 	nLets int
 	cond  string
+	ind   int // the pre-loop lets are this much deeper here
 }
 
 type kernel struct {
@@ -163,6 +189,32 @@ type kernel struct {
 	absCalls  []*abstractFn // functions with an error result, called on whole series: arguments of step
 	tables    []*variable   // series passed whole to such a function
 	ignored   []string      // print statements
+
+	resTypes     []string // Lean types of the results of the function being rendered
+	clo          *closureDef
+	fdepth       int
+	helperOf     string // the helper function being translated (prefix of its function literals' names)
+	lits         map[string]*ast.FuncLit
+	allowPartial bool // the next call may be of a function that may panic (statement level)
+	lastPartial  bool
+	deeper       bool        // the statement just rendered opened a `some` arm: the rest of the block goes one level deeper
+	whole        bool        // whole-function mode
+	lists        []*variable // whole mode: the series, as lists
+	params       []*variable // all value parameters in order (typed)
+	postText     string      // statements after the loop: the definition `final`
+	postPartial  bool
+	nfuel        int
+	hoisted      map[*ast.CallExpr]*hoistedCall
+	idx          idxInfo
+	tableSeries  []*variable // series parameters used as tables: List α parameters
+	preInd       int         // the pre-loop lets are rendered this much deeper (inside `some` arms of calls that may panic)
+	prePartial   bool        // a pre-loop statement may panic: guard / pre / init are Options
+	guardZero    bool        // the early return leaves the named results at their zero values
+	inFinal      bool        // rendering the statements after the loop
+	fuels        []string    // fuel parameters of step (one per sub-step loop)
+	usesSlices   bool
+	liftLoops    bool              // table entry Lift
+	derived      map[string]string // temporary series of a delegating branch: per-step expression
 }
 
 // a function of the module with results (float64, error), not translated: `step` takes it as an argument of type
@@ -170,6 +222,8 @@ type kernel struct {
 type abstractFn struct {
 	key, lean string
 	kinds     []byte // 'f' float64, 's' whole series
+	typ       string // when set: the Lean type (kinds unused)
+	desc      string
 	rel       string
 	line      int
 }
@@ -235,8 +289,8 @@ func (k *kernel) declare(id *ast.Ident, kind vkind) *variable {
 		// `x := e` of an existing variable of the same scope is a compile error in Go for a single left-hand side
 		k.fail(id, "redeclaration of %s", id.Name)
 	}
-	v := &variable{kind: kind, name: id.Name, depth: k.sc.depth, inLoop: k.inLoop, declPos: id.Pos()}
-	if kind == vFloat || kind == vSeries || kind == vBool {
+	v := &variable{kind: kind, name: id.Name, depth: k.sc.depth, inLoop: k.inLoop, declPos: id.Pos(), fdepth: k.fdepth}
+	if kind == vFloat || kind == vSeries || kind == vBool || kind == vIntVar || kind == vSlice || kind == vIdxVec || kind == vList || kind == vErrFlag {
 		l, ok := k.leanOf[id.Pos()]
 		if !ok {
 			l = k.fresh(id.Name)
@@ -244,7 +298,7 @@ func (k *kernel) declare(id *ast.Ident, kind vkind) *variable {
 		}
 		v.lean = l
 	}
-	if kind == vFloat && !k.inLoop && k.wantHidden[id.Pos()] {
+	if (kind == vFloat || kind == vIntVar || kind == vSlice || kind == vBool) && !k.inLoop && k.wantHidden[id.Pos()] {
 		v.state, v.hidden = true, true
 		k.hidden = append(k.hidden, v)
 	}
@@ -341,28 +395,30 @@ func (k *kernel) helper(call ast.Node, r *funcRef) *helperDef {
 	if k.hs.busy[key] {
 		k.fail(call, "recursive helper function %s", r.fd.Name.Name)
 	}
-	nin, nout, ok := floatSignature(r.fd.Type)
-	if !ok || nout == 0 || r.fd.Body == nil || r.fd.Type.TypeParams != nil {
+	ins, outs, ok := k.typedSignature(r)
+	if !ok {
 		k.fail(call, "call of function %s, whose parameters and results are not all float64", r.fd.Name.Name)
 	}
+	nin, nout := len(ins), len(outs)
+	_, _, allFloat := floatSignature(r.fd.Type)
 	name := fresh0(r.fd.Name.Name)
 	for i := 0; reservedDefs[name] || k.hs.names[name]; i++ {
 		name = fmt.Sprintf("%s_fn%s", r.fd.Name.Name, strings.Repeat("'", i))
 	}
 	k.hs.names[name] = true
-	h := &helperDef{key: key, lean: name, nin: nin, nout: nout}
+	h := &helperDef{key: key, lean: name, nin: nin, nout: nout, ins: ins, outs: outs}
 	pos := k.w.fset.Position(r.fd.Pos())
 	h.rel, _ = filepath.Rel(k.w.repo, pos.Filename)
 	h.line = pos.Line
 	k.hs.busy[key] = true
 	hk := &kernel{w: k.w, p: r.p, file: r.f, fn: r.fd, imp: imports(r.f), mode: mHelper, hs: k.hs, leanOf: map[token.Pos]string{},
-		used: map[string]bool{}}
+		used: map[string]bool{}, helperOf: name, lits: closureLits(r.fd.Body)}
 	func() {
 		defer func() {
 			if rec := recover(); rec != nil {
 				u, isU := rec.(unsupported)
 				// only the kernel's own body may fall back to an abstract function argument
-				if !isU || k.mode != mKernel || k.sub {
+				if !isU || k.mode != mKernel || k.sub || !allFloat {
 					panic(rec)
 				}
 				h.abstract = u.msg
